@@ -6,7 +6,7 @@ EXTENDS Traversal, Json, IOUtils, SequencesExt, CSV
 
 Configs == ndJsonDeserialize(IOEnv.CONFIGS)
 CfgOf(e) == [n |-> e.n, deps |-> [i \in 1..e.n |-> ToSet(e.deps[i])], inverse |-> e.inverse,
-             limit |-> e.limit, after |-> ToSet(e.after), fails |-> ToSet(e.fails)]
+             limit |-> e.limit, after |-> ToSet(e.after), fails |-> ToSet(e.fails), ext |-> e.ext]
 
 VARIABLES ci, hist, emitted
 gvars == <<vars, ci, hist, emitted>>
@@ -28,6 +28,7 @@ GNext ==
   \/ Same /\ CSpawned /\ H("coord", "spawned", cCur)
   \/ Same /\ chan # <<>> /\ CRecv /\ H("coord", "coord.recv", Head(chan))
   \/ Same /\ CDone /\ H("coord", "coord.ctxdone", 0)
+  \/ Same /\ CallerCancel /\ H("env", "cancel", 0)
   \/ \E n \in Nodes : Same /\ WStart(n) /\ H("w", "worker.start", n)
   \/ \E n \in Nodes : Same /\ WReturn(n) /\ H("w", "visit", n)
   \/ \E n \in Nodes : Same /\ WDone(n) /\ H("w", "worker.done", n)
